@@ -137,6 +137,24 @@ def make_readers(rng, tle):
     for s0 in (2.0, 4.0):   # the same overridden entry with different values
         cu = {"channel_1": {"dark_count": 39.0, "gain_switch": 500.0, "s0": s0, "s1": 0.0, "s2": 0.0}}
         configs.append(("gac_klm", klm_bytes, dict(tle_dir=tle_dir, tle_name=tle_name, tle_thresh=40000, calibration_parameters=dict(custom_coeffs=cu))))
+    # a POD spacecraft whose code (2 = NOAA-6) is also the KLM code of NOAA-16, followed by a NOAA-16 pass inside one of its
+    # scan-motor intervals with noisy pixels: what one reader family learns about a code must not leak to the other
+    rs = np.random.RandomState(rng.randrange(2 ** 31))
+    start6 = datetime.datetime(1983, 5, 6, 7, 8, 9)
+    configs.append(("gac_pod", l1b.build_file("gac_pod", "noaa6", start6, l1b.default_lines("gac_pod", 30, start6, counts=samples)),
+                    dict(tle_dir=tle_dir, tle_name=tle_name, tle_thresh=40000, adjust_clock_drift=False)))
+    start16 = datetime.datetime(2004, 1, 14, 15, 0, 0)
+
+    def noisy(i):
+        c = np.empty((W, 5), dtype=int)
+        c[:, 0] = 300 + (rs.rand(W) * 120).astype(int)
+        c[:, 1] = 300 + (rs.rand(W) * 10).astype(int)
+        c[:, 2] = 500
+        c[:, 3] = 500 + (rs.rand(W) * 150).astype(int)
+        c[:, 4] = 520 + (rs.rand(W) * 10).astype(int)
+        return c.ravel().tolist()
+    configs.append(("gac_klm", l1b.build_file("gac_klm", "noaa16", start16, l1b.default_lines("gac_klm", 30, start16, counts=noisy)),
+                    dict(tle_dir=tle_dir, tle_name=tle_name, tle_thresh=40000)))
     # element sets exist but the nearest one is older than the limit: the TLE-free fallback, on every call
     configs.append(("gac_klm", klm_bytes, dict(tle_dir=tle_dir, tle_name=tle_name, tle_thresh=1e-6)))
     return configs
